@@ -11,7 +11,12 @@ require (
 )
 
 require (
+	github.com/dchest/blake512 v1.0.0 // indirect
+	github.com/mr-tron/base58 v1.2.0 // indirect
+	github.com/pkg/errors v0.9.1 // indirect
 	github.com/pquerna/cachecontrol v0.0.0-20180517163645-1555304b9b35 // indirect
+	github.com/santhosh-tekuri/jsonschema/v5 v5.3.0 // indirect
+	golang.org/x/crypto v0.12.0 // indirect
 	golang.org/x/sys v0.15.0 // indirect
 )
 
